@@ -1,6 +1,6 @@
 from props.common import run_bounded, verify_keys
 
-KEYS = ['parso.tree.Leaf.get_code', 'parso.tree.BaseNode.get_code', 'parso.tree.BaseNode._get_code_for_children',
+KEYS = ['parso.tree.Leaf.get_code', 'parso.tree.BaseNode.get_code', 'parso.tree.BaseNode._get_code_for_children', 'parso.python.tree.Param.get_code',
         'parso.utils.python_bytes_to_unicode', 'parso.python.parser.Parser.convert_leaf', 'parso.tree.Leaf.__init__',
         'parso.python.tokenize._close_fstring_if_necessary', 'parso.python.tokenize._find_fstring_string',
         'parso.python.tokenize.FStringNode.allow_multiline', 'parso.python.tokenize._split_illegal_unicode_name',
